@@ -40,6 +40,8 @@ package clightning
 //@ sets ghost.sentTxId = txid
 //@ sets ghost.sentAnswerTxId = ite(result0 != nil, result0.TxId, "")
 //@ sets ghost.sentAnswerHex = ite(result0 != nil, result0.SignedTx, "")
+// (a failed sendtx has broadcast nothing: environment, ASSUMED)
+//@ sets ghost.bcast = ite(result1 == nil, old(ghost.bcast) + 1, old(ghost.bcast))
 //@ assigns nothing
 
 //@ extern glightning (*Lightning).SetPSBTVersion
@@ -47,7 +49,9 @@ package clightning
 //@ assigns nothing
 
 //@ func (*ClightningClient).CreateOpeningTransaction
-//@ property C08
+//@ property C08 C07 C15
+//@ ensures @C07,C15 failure-is-no-broadcast: result5 != nil ==> ghost.bcast == old(ghost.bcast)
+//@ ensures @C07,C15 success-is-one-broadcast: result5 == nil ==> ghost.bcast == old(ghost.bcast) + 1
 //@ requires cl != nil && cl.glightning != nil && swapParams != nil
 //@ ensures @C08 vout-verified: result5 == nil ==> ghost.voutOK
 //@ ensures @C08 vout-of-prepared-tx: result5 == nil ==> ghost.voutCheckedHex == ghost.preparedUnsigned
